@@ -50,6 +50,17 @@ class Obligation:
         self.model_vars = model_vars or {}
 
 
+def _prune_solver(timeout_ms):
+    """solver for feasibility / quick-proof queries.  The legacy simplex (arith.solver=2) is used here: with the default
+    LP-based arithmetic z3 5.1 was observed (rarely, timing dependent) to spend tens of minutes inside
+    lp::static_matrix without honouring the timeout during path pruning.  Only pruning is affected - obligations are
+    solved with the default configuration."""
+    s = z3.Solver()
+    s.set("timeout", timeout_ms)
+    s.set("arith.solver", 2)
+    return s
+
+
 def _has_quantifier(f, _cache={}):
     k = f.get_id()
     if k in _cache:
@@ -142,8 +153,7 @@ class Ctx:
         qf = self._qf_pc()
         budget = self.ex.prune_timeout_ms
         if len(qf) != len(self.pc):
-            s = z3.Solver()
-            s.set("timeout", self.ex.prune_timeout_ms)
+            s = _prune_solver(self.ex.prune_timeout_ms)
             s.add(*qf)
             s.add(cond)
             r1 = s.check()
@@ -153,8 +163,7 @@ class Ctx:
                 # the quantifier-free part has a model: the quantified hypotheses rarely refute the branch, and when they
                 # do it is quick - a shorter budget (a missed pruning only costs an extra, vacuous, path)
                 budget = min(budget, 60)
-        s = z3.Solver()
-        s.set("timeout", budget)
+        s = _prune_solver(budget)
         s.add(*self.pc)
         s.add(cond)
         r = s.check()
@@ -192,8 +201,7 @@ class Ctx:
         instead of retrying with the quantified hypotheses (callers fall back to a weaker encoding)"""
         qf = self._qf_pc()
         if len(qf) != len(self.pc):
-            s = z3.Solver()
-            s.set("timeout", timeout_ms)
+            s = _prune_solver(timeout_ms)
             s.add(*qf)
             s.add(z3.Not(f))
             if s.check() == z3.unsat:
